@@ -4,6 +4,8 @@
 
 #include "circ.hpp"
 #include "place_detailed/legalizer.hpp"
+#include "place_detailed/abacus_legalizer.hpp"
+#include "place_detailed/tetris_legalizer.hpp"
 
 using namespace coloquinte;
 using namespace vfc;
@@ -772,6 +774,113 @@ static void c01Staged(Rng &rng, CaseResult &r) {
   if (r.needSample()) r.sample = sampleJson(c0, "c01.staged", pdesc, hist.str());
 }
 
+// The two component legalizers used directly, the way Legalizer uses them (free row segments, placed dimensions, targets), with the
+// row list handed over in an arbitrary order: the list is documented as a set of rows, LegalizerBase orders it itself. The result
+// must not depend on the order of the list, and whatever a component reports as placed must be legal with respect to the list.
+namespace {
+struct LegView : Legalizer {
+  explicit LegView(const Legalizer &l) : Legalizer(l) {}
+  using LegalizerBase::cellWidth_; using LegalizerBase::cellHeight_; using LegalizerBase::cellRowPolarity_;
+  using LegalizerBase::cellTargetX_; using LegalizerBase::cellTargetY_; using LegalizerBase::cellTargetOrientation_;
+};
+template <class B> struct CompView : B {
+  using B::B;
+  bool placed(int c) const { return this->isPlaced(c); }
+};
+}  // namespace
+
+static void c01Components(Rng &rng, CaseResult &r) {
+  std::string profile = rng.pick(std::vector<std::string>{"multirow", "general", "obstruction", "comb", "staggered", "dense", "turned"});
+  GenOpts o = makeProfile(rng, profile);
+  if (rng.chance(0.5)) o.multiRowProb = 0.5;
+  Circuit c0 = genCircuit(rng, o);
+  bool tetris = rng.chance(0.6);
+  uint64_t shuffleSeed = rng.next();
+  if (r.dumpOnly) { r.sample = sampleJson(c0, "c01.components", "", std::string(tetris ? "TetrisLegalizer" : "AbacusLegalizer") + " rows shuffled with " + std::to_string(shuffleSeed)); return; }
+  std::vector<Row> rows;
+  std::vector<int> w, h, x, y;
+  std::vector<CellRowPolarity> pol;
+  std::vector<CellOrientation> ori;
+  int rowH = 0;
+  try {
+    Legalizer l0 = Legalizer::fromIspdCircuit(c0);
+    LegView l(l0);
+    rows = l.remainingRows();
+    rowH = l.rowHeight();
+    for (int c = 0; c < l.nbCells(); ++c) {
+      bool tall = l.cellHeight_[c] > rowH;
+      if (tetris ? !tall && rng.chance(0.5) : l.cellHeight_[c] != rowH) continue;
+      w.push_back(l.cellWidth_[c]); h.push_back(l.cellHeight_[c]); pol.push_back(l.cellRowPolarity_[c]);
+      x.push_back(l.cellTargetX_[c]); y.push_back(l.cellTargetY_[c]); ori.push_back(l.cellTargetOrientation_[c]);
+    }
+  } catch (const std::exception &) { r.sig = "refused"; return; }
+  int n = (int)w.size();
+  if (n == 0 || rows.empty()) { r.sig = "nothing-to-place"; return; }
+  std::vector<Row> shuffled = rows;
+  Rng srng(shuffleSeed);
+  int kind = (int)srng.range(0, 2);
+  if (kind == 0) std::reverse(shuffled.begin(), shuffled.end());
+  else for (int i = (int)shuffled.size() - 1; i > 0; --i) std::swap(shuffled[i], shuffled[srng.range(0, i)]);
+  bool reordered = false;
+  for (size_t i = 0; i < rows.size(); ++i) if (rows[i].minX != shuffled[i].minX || rows[i].minY != shuffled[i].minY) reordered = true;
+  std::set<int> starts;
+  for (auto &q : rows) starts.insert(q.minX);
+  auto judge = [&](auto &A, auto &B, const char *what) {
+    bool thrA = false, thrB = false;
+    try { A.run(); } catch (const std::exception &) { thrA = true; }
+    try { B.run(); } catch (const std::exception &) { thrB = true; }
+    if (thrA != thrB) { r.fail(std::string("C01:") + what + "-outcome-depends-on-row-list-order", thrA ? "threw with the sorted list only" : "threw with the reordered list only"); return; }
+    if (thrA) { r.count("components_threw"); return; }
+    int placedN = 0;
+    for (int c = 0; c < n; ++c) {
+      if (A.placed(c) != B.placed(c) || (A.placed(c) && (A.cellLegalX()[c] != B.cellLegalX()[c] || A.cellLegalY()[c] != B.cellLegalY()[c] || A.cellLegalOrientation()[c] != B.cellLegalOrientation()[c]))) {
+        r.fail(std::string("C01:") + what + "-result-depends-on-row-list-order", "cell " + std::to_string(c) + ": (" + std::to_string(A.cellLegalX()[c]) + "," + std::to_string(A.cellLegalY()[c]) + ") with the sorted list, (" +
+                                                                                     std::to_string(B.cellLegalX()[c]) + "," + std::to_string(B.cellLegalY()[c]) + ") with the reordered one");
+        break;
+      }
+      if (A.placed(c)) ++placedN;
+    }
+    // legality of what the component run on the reordered list reports as placed
+    struct Box { int x0, x1, y0, y1, c; };
+    std::vector<Box> boxes;
+    for (int c = 0; c < n; ++c) {
+      if (!B.placed(c)) continue;
+      int pw = w[c], ph = h[c];
+      if (isTurn(B.cellLegalOrientation()[c]) != isTurn(ori[c])) std::swap(pw, ph);
+      int px = B.cellLegalX()[c], py = B.cellLegalY()[c];
+      if (ph <= 0 || ph % rowH != 0) { r.fail(std::string("C01:") + what + "-placed-height-not-a-multiple-of-the-row-height", "cell " + std::to_string(c)); continue; }
+      for (int sy = py; sy < py + ph; sy += rowH) {
+        bool inside = false;
+        for (auto &q : rows) if (q.minY == sy && q.minX <= px && px + pw <= q.maxX) inside = true;
+        if (!inside) { r.fail(std::string("C01:") + what + "-strip-outside-free-row-segments", "cell " + std::to_string(c) + " x " + std::to_string(px) + ".." + std::to_string(px + pw) + " strip at y " + std::to_string(sy)); break; }
+      }
+      boxes.push_back({px, px + pw, py, py + ph, c});
+    }
+    for (size_t a = 0; a < boxes.size() && r.viol.empty(); ++a)
+      for (size_t b = a + 1; b < boxes.size(); ++b)
+        if (boxes[a].x0 < boxes[b].x1 && boxes[b].x0 < boxes[a].x1 && boxes[a].y0 < boxes[b].y1 && boxes[b].y0 < boxes[a].y1) {
+          r.fail(std::string("C01:") + what + "-placed-cells-overlap", "cells " + std::to_string(boxes[a].c) + " and " + std::to_string(boxes[b].c));
+          break;
+        }
+    r.count("component_cells_placed", placedN);
+    r.count("component_cells_left_unplaced", n - placedN);
+    r.nontrivial = placedN > 0 && reordered;
+  };
+  if (tetris) {
+    CompView<TetrisLegalizer> A(rows, w, h, pol, x, y, ori), B(shuffled, w, h, pol, x, y, ori);
+    judge(A, B, "tetris");
+    r.count("tetris_components_run");
+  } else {
+    CompView<AbacusLegalizer> A(rows, w, h, pol, x, y, ori), B(shuffled, w, h, pol, x, y, ori);
+    judge(A, B, "abacus");
+    r.count("abacus_components_run");
+  }
+  if (reordered) r.count("row_lists_really_reordered");
+  if (starts.size() > 1) r.count("row_lists_with_different_segment_starts");
+  r.sig = std::string(tetris ? "T" : "A") + ":" + profile + ":r" + std::to_string(std::min<size_t>(rows.size(), 12)) + "s" + std::to_string(std::min<size_t>(starts.size(), 5)) + "n" + std::to_string(std::min(n, 12)) + "k" + std::to_string(kind);
+  if (!r.viol.empty() || r.needSample()) r.sample = sampleJson(c0, "c01.components", "", std::string(tetris ? "TetrisLegalizer" : "AbacusLegalizer") + " rows shuffled with " + std::to_string(shuffleSeed));
+}
+
 // The position setters stay available while a call is in progress. When a callback uses them to move or turn a FIXED cell,
 // the stage must leave that cell where the callback put it: fixed cells are never written by a placement stage.
 static void c03Nudge(Rng &rng, CaseResult &r) {
@@ -921,6 +1030,7 @@ int main(int argc, char **argv) {
   for (std::string prof : {"general", "manyfixed", "dense", "obstruction", "crowded", "faraway", "big"})
     add("c03.flow." + prof, [prof](uint64_t, Rng &rng, CaseResult &r) { flowCase(rng, r, prof, O_C03); });
   add("c01.staged", [](uint64_t, Rng &rng, CaseResult &r) { c01Staged(rng, r); });
+  add("c01.components", [](uint64_t, Rng &rng, CaseResult &r) { c01Components(rng, r); });
   add("c03.global", [](uint64_t, Rng &rng, CaseResult &r) { c03Global(rng, r); });
   add("c03.nudge", [](uint64_t, Rng &rng, CaseResult &r) { c03Nudge(rng, r); }, 60);
   for (std::string prof : {"general", "rowhigh", "obstruction", "polarity", "dense", "crowded", "big20", "comb", "staggered"})
